@@ -991,6 +991,9 @@ def enum_big(tier, seed):
     for tb in (BIG_TABLES if tier != "quick" else ("nodes", "edges", "mutations", "individuals")):
         for how in (("set", "append", "set_copy", "set_extend") if tier != "quick" else ("set_append", "copy_extend")):
             yield dict(op="grow", table=tb, rows=rows, how=how)
+    # big genealogies through the algorithms with block allocators / growable queues
+    for shape in ("twostar800", "stagger700", "alternating1100", "manytrees600", "comb300", "star5000"):
+        yield dict(op="big_shape", shape=shape)
     # one call that grows a ragged column by more than 100 MiB (and one that crosses 65536 bytes)
     for tb, col in (RAGGED_BIG if tier != "quick" else RAGGED_BIG[:2]):
         yield dict(op="ragged", table=tb, col=col, nrows=11, width=10_000_000)
@@ -1046,6 +1049,50 @@ def run_big(case, ctx):
 
     ctx.nt(True)
     ctx.label(case["op"])
+    if case["op"] == "big_shape":
+        from . import _shapes as SH
+        from .c01 import many_trees_spec
+
+        sh = case["shape"]
+        spec = {"twostar800": lambda: SH.two_tree_spec("twostar", "star", 800, internal_samples=False),
+                "stagger700": lambda: SH.staggered_twostar(700),
+                "alternating1100": lambda: SH.alternating_unary_spec(1100),
+                "manytrees600": lambda: many_trees_spec(600, 1),
+                "comb300": lambda: SH.shape_spec("comb", 300, internal_samples=True),
+                "star5000": lambda: SH.shape_spec("star", 5000, internal_samples=False)}[sh]()
+        tc = gen.build_tables(spec, tskit)
+        ts = tc.tree_sequence()
+        smp = list(ts.samples())
+        ctx.label("big_shape:" + sh)
+
+        def attempt(name, fn):
+            try:
+                fn()
+                ctx.notes["ret:" + name] = 1
+            except Exception as e:  # noqa: BLE001 - the contract of C09 is "returns or raises a Python exception"
+                ctx.notes[f"exc:{name}:{type(e).__name__}"] = 1
+
+        attempt("simplify", lambda: ts.simplify())
+        attempt("simplify_half", lambda: ts.simplify(smp[::2], keep_unary=True))
+        attempt("simplify_roots", lambda: ts.simplify(smp[: max(2, len(smp) // 3)], keep_input_roots=True, filter_nodes=False))
+        internal = [u for u in range(ts.num_nodes) if u not in set(smp)]
+        attempt("link_ancestors", lambda: tc.link_ancestors(smp, internal[: max(1, len(internal) // 2)]))
+        attempt("link_ancestors_all", lambda: tc.link_ancestors(smp[:50], internal))
+        attempt("ibd", lambda: ts.ibd_segments(within=smp[:300], store_segments=True))
+        attempt("ibd_between", lambda: ts.ibd_segments(between=[smp[:100], smp[100:250]], store_pairs=True))
+        attempt("extend", lambda: ts.extend_haplotypes(max_iter=2))
+        attempt("genotypes", lambda: ts.genotype_matrix())
+        attempt("divmat", lambda: ts.divergence_matrix(smp[:200]))
+        attempt("gnn", lambda: ts.genealogical_nearest_neighbours(smp[:100], [smp[::2], smp[1::2]]))
+        attempt("newick", lambda: [tr.as_newick(root=tr.root) for tr in ts.trees() if tr.num_roots == 1][:1])
+        attempt("map_mutations", lambda: ts.first().map_mutations([j % 3 for j in range(len(smp))], ["A", "C", "G"]))
+        attempt("sort", lambda: tc.copy().sort())
+        attempt("canonicalise", lambda: tc.copy().canonicalise())
+        attempt("subset", lambda: tc.copy().subset(list(range(0, ts.num_nodes, 2))))
+        attempt("kc", lambda: ts.first(sample_lists=True).kc_distance(ts.last(sample_lists=True)))
+        attempt("decapitate", lambda: ts.decapitate(0.5))
+        attempt("keep_intervals", lambda: ts.keep_intervals([[0, ts.sequence_length / 3]]))
+        return
     if case["op"] == "ragged":
         name, col, nrows, width = case["table"], case["col"], case["nrows"], case["width"]
         cols, data = _ragged_columns(np, name, col, nrows, width)
